@@ -64,6 +64,53 @@ CHECKS = {
         note=TB + "; CPython GIL with line-granularity scheduling; harness-side replacement of the library's RLocks",
         technique="TLA+ protocol spec + PlusCal implementation model (TLC); trace validation of real scheduled-thread executions against the eager reference",
         ref="3 C19"),
+    "C01": dict(
+        text="TLC model-checks SpecClass.tla (one live instance per scenario; Step = executable model of the documented helper semantics in SpecClassOps.tla; invariant TypeOK, "
+             "action properties Atomic, SetAttrIsWith, CowEqualsInplace, IfFalse) for 10 scenarios (scalars incl. Optional/Union/Literal, list/set/dict of scalars, nested spec, "
+             "list/dict/KeyedList of (keyed) spec items, preparers); every distinct reachable state x the exported action universe (all helpers x flags x conforming and "
+             "non-conforming arguments x raising callbacks; quick tier thinned per state) is executed on real classes rendered from the same scenario record, recording value "
+             "projections, identity tokens, argument objects, a peer instance and class defaults; TLC judges each event: after a copy-on-write call the receiver's projection and the identity map of every mutable node reachable from it are unchanged "
+             "(whether the call returned or raised) and every argument object is unchanged.",
+        note=TB, technique="TLA+ spec + TLC model checking; spec->code replay of every (state, action); TLC-judged events", ref="3 C01"),
+    "C02": dict(
+        text="TLC model-checks SpecClass.tla (one live instance per scenario; Step = executable model of the documented helper semantics in SpecClassOps.tla; invariant TypeOK, "
+             "action properties Atomic, SetAttrIsWith, CowEqualsInplace, IfFalse) for 10 scenarios (scalars incl. Optional/Union/Literal, list/set/dict of scalars, nested spec, "
+             "list/dict/KeyedList of (keyed) spec items, preparers); every distinct reachable state x the exported action universe (all helpers x flags x conforming and "
+             "non-conforming arguments x raising callbacks; quick tier thinned per state) is executed on real classes rendered from the same scenario record, recording value "
+             "projections, identity tokens, argument objects, a peer instance and class defaults; TLC judges each event: the identity tokens of the result and of the receiver intersect only in objects the caller handed in or below do_not_copy attributes.",
+        note=TB, technique="TLA+ spec + TLC model checking; spec->code replay of every (state, action); TLC-judged identity partition", ref="3 C02"),
+    "C03": dict(
+        text="TLC model-checks SpecClass.tla (one live instance per scenario; Step = executable model of the documented helper semantics in SpecClassOps.tla; invariant TypeOK, "
+             "action properties Atomic, SetAttrIsWith, CowEqualsInplace, IfFalse) for 10 scenarios (scalars incl. Optional/Union/Literal, list/set/dict of scalars, nested spec, "
+             "list/dict/KeyedList of (keyed) spec items, preparers); every distinct reachable state x the exported action universe (all helpers x flags x conforming and "
+             "non-conforming arguments x raising callbacks; quick tier thinned per state) is executed on real classes rendered from the same scenario record, recording value "
+             "projections, identity tokens, argument objects, a peer instance and class defaults; TLC judges each event: TypeOK (Conforms of PyTypes.tla, recursively through nested instances, keys and values) is evaluated by TLC on every OBSERVED post-state "
+             "of receiver and result, on every mutation route (constructor, dict cast, assignment, deletion, scalar/element/top-level helpers, preparers).",
+        note=TB, technique="TLA+ spec + TLC model checking; TLC evaluates the type invariant on observed real states", ref="3 C03"),
+    "C04": dict(
+        text="TLC model-checks SpecClass.tla (one live instance per scenario; Step = executable model of the documented helper semantics in SpecClassOps.tla; invariant TypeOK, "
+             "action properties Atomic, SetAttrIsWith, CowEqualsInplace, IfFalse) for 10 scenarios (scalars incl. Optional/Union/Literal, list/set/dict of scalars, nested spec, "
+             "list/dict/KeyedList of (keyed) spec items, preparers); every distinct reachable state x the exported action universe (all helpers x flags x conforming and "
+             "non-conforming arguments x raising callbacks; quick tier thinned per state) is executed on real classes rendered from the same scenario record, recording value "
+             "projections, identity tokens, argument objects, a peer instance and class defaults; TLC judges each event: whenever the real call raised (whatever the model predicted) receiver, its identity map and the arguments are exactly as before; the failing "
+             "edges cover ill-typed values at each position, missing index/key/element, duplicate keys, unknown keywords and callbacks raising at their k-th invocation.",
+        note=TB, technique="TLA+ spec + TLC model checking; fault enumeration over every failing (state, action) edge; TLC-judged", ref="3 C04"),
+    "C05": dict(
+        text="TLC model-checks SpecClass.tla (one live instance per scenario; Step = executable model of the documented helper semantics in SpecClassOps.tla; invariant TypeOK, "
+             "action properties Atomic, SetAttrIsWith, CowEqualsInplace, IfFalse) for 10 scenarios (scalars incl. Optional/Union/Literal, list/set/dict of scalars, nested spec, "
+             "list/dict/KeyedList of (keyed) spec items, preparers); every distinct reachable state x the exported action universe (all helpers x flags x conforming and "
+             "non-conforming arguments x raising callbacks; quick tier thinned per state) is executed on real classes rendered from the same scenario record, recording value "
+             "projections, identity tokens, argument objects, a peer instance and class defaults; TLC judges each event: for scalar and top-level helpers the observed result/receiver equals Step(pre, action), the exception class is one the model allows, and the "
+             "returned object is the receiver exactly when the model says so (in-place, _if=False, UNCHANGED); MC proves obj.a = v == with_a(v, _inplace=True) and copy == in-place.",
+        note=TB, technique="TLA+ executable model of the documentation; spec->code replay of every (state, action); TLC compares observed with Step", ref="3 C05"),
+    "C06": dict(
+        text="TLC model-checks SpecClass.tla (one live instance per scenario; Step = executable model of the documented helper semantics in SpecClassOps.tla; invariant TypeOK, "
+             "action properties Atomic, SetAttrIsWith, CowEqualsInplace, IfFalse) for 10 scenarios (scalars incl. Optional/Union/Literal, list/set/dict of scalars, nested spec, "
+             "list/dict/KeyedList of (keyed) spec items, preparers); every distinct reachable state x the exported action universe (all helpers x flags x conforming and "
+             "non-conforming arguments x raising callbacks; quick tier thinned per state) is executed on real classes rendered from the same scenario record, recording value "
+             "projections, identity tokens, argument objects, a peer instance and class defaults; TLC judges each event: for element helpers of list/set/dict/KeyedList attributes the observed attribute equals the plain container operation of the model (append, replace/insert "
+             "at Python index, assign key, add, replace by transformed value, remove by value/index/key; by-index defaulting; key promotion; keyword build/update of spec items).",
+        note=TB, technique="TLA+ executable model of the container operations; spec->code replay of every (state, action); TLC compares observed with Step", ref="3 C06"),
 }
 
 PENDING = "check not built yet in this round (see DESIGN.md section 3 for the planned TLA+ module)"
